@@ -294,7 +294,8 @@ def commit (o : Oracles) (s : St) : St :=
   if s.pending.isEmpty && !s.dirty && !s.tantivyDirty then s
   else
     let frames' := applyRecs s.frames s.pending
-    let staleNow := s.stale || !s.docs.isEmpty || !s.cards.isEmpty
+    -- regions written by an EARLIER commit die when this commit rewrites the index area
+    let staleNow := s.stale || (decide (0 < s.gen) && (!s.docs.isEmpty || !s.cards.isEmpty))
     if !s.lex then
       { s with frames := frames', pending := [], dirty := false, gen := s.gen + 1, stale := staleNow }
     else if !s.pending.isEmpty then
@@ -521,5 +522,35 @@ def causes (s : St) : List String :=
   ++ (if lexTainted s then ["uuid:tantivy-segment-names", "sched:tantivy-segment-layout"] else [])
   ++ (if !s.cards.isEmpty && decide (1 < (slotKeys s.cards).length) then ["hashSeed:memories-slot-index-order"] else [])
   ++ (if decide (1 < (enrichKeys s.enrich).length) then ["hashSeed:memories-enrichment-manifest-order"] else [])
+
+/-! ## concrete instances (used by the model driver and by the witness theorems) -/
+
+/-- a concrete engine whose answer is a function of the indexed documents: number of documents containing the byte -/
+def E0 : Engine := fun segs q => [(flat segs).countP (fun d => d.text.contains (UInt8.ofNat q))]
+
+def n8 (n : Nat) : UInt8 := UInt8.ofNat n
+
+def encRec : Rec → Bytes
+  | .insert ts p u _ => 1 :: n8 ts.toNat :: n8 u :: p
+  | .tombstone t ts => [2, n8 t, n8 ts.toNat]
+  | .lexBatch ns => 3 :: ns.map n8
+
+/-- concrete small encoders (injective enough to show the oracle values inside the file) -/
+def X0 : Enc where
+  H := fun b => b.take 4
+  header := fun s g c => n8 s :: n8 g :: c
+  walRegion := fun rs => rs.flatMap encRec
+  timeIdx := fun es => es.flatMap fun e => [n8 e.1.toNat, n8 e.2]
+  segFiles := fun name ds => n8 name :: ds.flatMap (·.text)
+  lexMeta := fun names => names.map n8
+  hashOrder := fun seed ks => if seed % 2 = 0 then ks else ks.reverse
+  memories := fun cs order es eorder =>
+    order.map n8 ++ cs.flatMap (fun c => [n8 c.slotKey, n8 c.value, n8 c.createdAt.toNat]) ++ eorder.map n8 ++ es.flatMap (fun e => [n8 e.1, n8 e.2.toNat])
+  sketch := fun fs => [n8 fs.length]
+  toc := fun fs names t l m k g s => n8 fs.length :: names.map n8 ++ t.take 2 ++ l.take 4 ++ m.take 4 ++ k.take 2 ++ [n8 g, n8 s]
+  footer := fun h g => h ++ [n8 g]
+
+def zeroOracles : Oracles := { clock := fun _ => 0, uuid := fun _ => 0, hashSeed := 0, tmp := fun _ => 0, sched := fun _ => 0 }
+
 
 end Mv.Det
